@@ -1467,3 +1467,21 @@ def check_call_shapes(ctx: Ctx, files: List[str]):
         ctx.undec("G.11", "probe", "the binding test does not separate the probe calls: the rule cannot fire")
         return
     ctx.ok("G.11", f"{len(list(_scope_modules(ctx, files)))} modules", f"{n} resolved calls / model constructions bind (probe calls separated)")
+
+
+def expand_new_helpers(ctx, t):
+    """calls of side-effect free module functions that the reference tree does not have, whose arguments became explicit only after a
+    rule's substitution (`_widen(*geometry.coordinates, b)` once the coordinates are a display), replaced by their value"""
+    from sa.sym import PINNED, expand_pure_calls, fold_sub
+    if not isinstance(t, tuple) or not t:
+        return t
+    if not isinstance(t[0], str):
+        return tuple(expand_new_helpers(ctx, c) for c in t)
+    t = tuple(expand_new_helpers(ctx, c) if isinstance(c, tuple) else c for c in t)
+    if t[0] == "call" and t[1][0] == "global" and t[1][2] == "func" and ":" in t[1][1]:
+        modname, name = t[1][1].split(":")
+        if name not in PINNED.get(modname, ()) and modname in ctx.index.modules:
+            v = expand_pure_calls(t, ctx.summ, None, ctx.index.modules[modname])
+            if v != t:
+                return fold_sub(v)
+    return t
